@@ -99,3 +99,21 @@ Theorem bzip2_trailing_garbage_is_refused : forall level data b0 b1 t,
   mkBZ (Some ECorrupted) data (N.of_nat (length (bzip2_encode level data)) + 2).
 Proof. exact bzip2_trailing_garbage. Qed.
 Print Assumptions bzip2_trailing_garbage_is_refused.
+
+(* THE IMPLEMENTATION-LEVEL READER REFINES THE libbzip2 PORT. The model Bzip2/Impl.v follows
+   bzip2/reader.go, prefix.go, mtf_rle2.go, bwt.go, rle1.go, common.go line by line (bit buffer over
+   a ByteReader or BufferedReader source, two-level lookup tables on recycled Decoder objects,
+   GeneratePrefixes / handleDegenerateCodes, 50-symbol groups, the chunked RLE1 expansion per
+   Read call, the CRC through hash/crc32 on reversed bits, the Read loop with errors.Recover,
+   Flush and errWrap; checked against the real Reader per Read call: WBZIMPL). For every input,
+   source kind and script, and every schedule of Read buffer sizes read to the first error:
+   never a run-time panic; io.EOF exactly when libbzip2 accepts, then with libbzip2's bytes and
+   InputOffset = the input bytes consumed; otherwise libbzip2 rejects as well, the delivered
+   bytes are a prefix of libbzip2's, and the class and bytes are the same - or the class is
+   io.ErrUnexpectedEOF (near the end of the input the table walk may ask for more bits than the
+   code word it would decode: known finding, witness in Bzip2/ImplExamples.v). *)
+From V Require Bzip2.Impl Bzip2.ImplThms.
+Theorem bzip2_reader_implementation_refines_libbzip2 :
+  ImplThms.bzip2_impl_refines_libbzip2_statement.
+Proof. exact ImplThms.bzip2_impl_refines_libbzip2. Qed.
+Print Assumptions bzip2_reader_implementation_refines_libbzip2.
